@@ -700,6 +700,7 @@ def run(tier, seed, replay=None):
     _jobs, ex_c, w_c, meta, nt_c = part_e2e(chk, tier)
     refused_archives_change_nothing(chk)
     part_output_decision(chk)
+    au.equal_timestamps_across_tasks(chk, "C11")
     chk.coverage["distinct_nontrivial"] = nt_a + nt_b + nt_c
     chk.coverage["exhaustive"] = False
     chk.coverage["rule"] = (
